@@ -195,3 +195,47 @@ def nb_build_line(c: str) -> bool:
     w = _want(p)
     return R(b is not None and b['outputs'] == [w] and b['rule'] == 'cc' and b['inputs'] == [w] and
              b['implicit'] == ['imp'] and b['order_only'] == [w])
+
+
+# ---- positions whose file exists when Make reads the name (sources, depfiles) -----------------
+EXCL_SRC = param('excl_src', ';=')
+KF_INCLUDE = param('kf_include', False)   # C04-F15: ':' / '%' / leading '~' in an -include line
+
+
+def ms_source_prereq(c: str) -> bool:
+    """Make prerequisite naming an existing source file: wildcard characters are written
+    backslash-escaped, which glob(3) resolves to the existing file of that name
+    pre: len(c) == N and _comp_ok(c) and _in_scope(c, EXCL_SRC)
+    pre: not (KF_TILDE and c[0] == '~' and SHAPE != 0 and ROOTI == 0)
+    post: _
+    """
+    p = _mkpath(c)
+    w = _want(p)
+    names = rmake.rule_words('00 ' + _text(MK, p, MS.dependency) + ' 99', 'prereq', SRC, [w])
+    return R(names == ['00', w, '99'])
+
+
+_EMPTY = StringIO()
+Makefile('build.bfg').write(_EMPTY)
+_PREFIX_LEN = len(_EMPTY.getvalue())
+
+
+def mi_include(c: str) -> bool:
+    """`-include <depfile>` as written by the real Makefile.include + Makefile.write: Make reads
+    exactly the depfile the compiler wrote
+    pre: len(c) == N and _comp_ok(c) and _in_scope(c, EXCL_SRC)
+    pre: not (KF_INCLUDE and (':' in c or '%' in c or (c[0] == '~' and SHAPE != 0 and ROOTI == 0)))
+    post: _
+    """
+    p = _mkpath(c)
+    mk = Makefile('build.bfg')
+    mk.include(p, optional=True)
+    out = StringIO()
+    mk.write(out)
+    text = out.getvalue()[_PREFIX_LEN:]
+    head = '-include '
+    if not (text.startswith(head) and text.endswith('\n')):
+        return R(False)
+    w = _want(p)
+    names = rmake.include_words(text[len(head):-1], SRC, [w])
+    return R(names == [w])
